@@ -15,7 +15,7 @@ func init() {
 		Property: "C16",
 		Explanation: "VSA/SEE rules on plugin.Prefix.lifetimes and plugin.Route.lifetime, per path: R-C16-1 non-deprecated ⇒ the configured constants; deprecated ⇒ with one clock read `now` and T = Epoch.Add(<the like-named configured lifetime>), the result is 0 on paths where now ≥ T (Equal ∨ After / ¬Before) and T.Sub(now) on the complementary paths, same T and same now in test and subtraction " +
 			"(hence result = max(0, T−now): non-negative, zero from the deadline on, non-increasing in now; preferred ≤ valid at every instant because both use one now and T_p ≤ T_v by config); " +
-			"R-C16-2 Epoch is the epoch parameter threaded from config.Parse, which cmd/corerad calls once with time.Now(); nothing else writes Epoch; R-C16-3 the parser rejects deprecated stanzas with an infinite lifetime R-C16-4 the lifetimes stored into the options are the results of lifetime()/lifetimes() on every path of Apply (static and wildcard); R-C16-5 no module code outside package plugin stores the advertised lifetime fields of prefix and route options.",
+			"R-C16-2 Epoch is the epoch parameter threaded from config.Parse, which cmd/corerad calls once with time.Now(); nothing else writes Epoch; R-C16-3 the parser rejects deprecated stanzas with an infinite lifetime R-C16-4 the lifetimes stored into the options are the results of lifetime()/lifetimes() on every path of Apply (static and wildcard); R-C16-5 no module code outside package plugin stores the advertised lifetime fields of prefix and route options; R-C16-6 only the configuration parser writes Prefix.Deprecated / Route.Deprecated.",
 		Assumptions: []string{
 			"Go type checker and go/ssa construction are correct",
 			"time.Time.Equal/After/Before/Sub/Add have their documented meaning; preferred ≤ valid is established by C02",
@@ -192,6 +192,7 @@ func c16Lifetimes(c *Ctx, fn *ssa.Function, fields []string) {
 func runC16(c *Ctx) {
 	c16Advertised(c)
 	c16OnlyPluginsWriteLifetimes(c)
+	c16DeprecatedWriters(c)
 	if f := c.needMethod("R-C16-1", "internal/plugin", "Prefix", "lifetimes"); f != nil {
 		c16Lifetimes(c, f, []string{"ValidLifetime", "PreferredLifetime"})
 	}
@@ -379,4 +380,22 @@ func c16OnlyPluginsWriteLifetimes(c *Ctx) {
 		}
 	}
 	c.R.Check(n >= 3, "R-C16-5", "module:lifetime-writers", "", "", fmt.Sprintf("%d store(s) to advertised lifetime fields", n), ">= 3 (valid, preferred, route)", "anchor-missing")
+}
+
+
+// c16DeprecatedWriters (R-C16-6): whether a prefix or route counts down is
+// decided by the configuration alone: only the parser (package config) writes
+// Prefix.Deprecated / Route.Deprecated. A plugin that flags itself deprecated
+// at run time makes a non-deprecated stanza advertise decreasing lifetimes.
+func c16DeprecatedWriters(c *Ctx) {
+	n := 0
+	for _, typ := range []string{"Prefix", "Route"} {
+		for _, fs := range an.FindFieldStores(c.srcFuncs(), PkgPlugin, typ, "Deprecated") {
+			n++
+			inConfig := fs.Fn.Pkg != nil && fs.Fn.Pkg.Pkg.Path() == PkgConfig
+			c.R.Check(inConfig, "R-C16-6", fmt.Sprintf("%s:writes:%s.Deprecated", c.fname(fs.Fn), typ), c.fname(fs.Fn), c.pos(fs.Store.Pos()), "written in "+c.fname(fs.Fn),
+				"only the configuration parser sets Deprecated", "a stanza configured as not deprecated starts counting its lifetimes down")
+		}
+	}
+	c.R.Check(n >= 2, "R-C16-6", "plugin:deprecated-writers", "", "", fmt.Sprintf("%d store(s) to Deprecated", n), ">= 2 (parsePrefix, parseRoute)", "anchor-missing")
 }
